@@ -16,6 +16,8 @@ def base_models(tmpdir):
     out = [(sp, "m%d" % i) for i, sp in enumerate(c08.base_models())]
     half = F.with_teams({"tasks": [{"name": "T0", "work": 4.0, "progress": 0.5}, {"name": "T1", "work": 4.0, "progress": 0.25}, {"name": "T2", "work": 1.0, "progress": 1.0}], "links": [[0, 1, "SS"]]}, "POOL2")
     out.append((half, "partly-done"))
+    out.append((F.waiting_component_spec(), "waiting-component"))  # a component that is WORKING, then READY (its next task waits for a worker), then WORKING again
+    out.append((F.idle_component_spec(), "idle-component"))
     # a parent project with a sub-project task (configured from a saved, successfully simulated project)
     sub = F.with_teams({"tasks": [{"name": "T0", "work": 2.0}, {"name": "T1", "work": 1.0}], "links": [[0, 1, "FS"]]}, "POOL1")
     m = S.build(sub)
@@ -151,6 +153,9 @@ def apply_and_check(m, op, spec):
                         init = t.default_work_amount * (1.0 - t.default_progress)
                         if abs(rl[0] - init) > TOL:
                             out.append(("C18:inserted-step-0-remaining-work-is-not-the-initial-one[%s]" % tag, {"op": op, "task": t.ID, "logged": rl[0], "initial": init}))
+                for c in p.product.component_list:
+                    if i < len(c.state_record_list) and int(c.state_record_list[i]) == S.C_WORKING:
+                        out.append(("C18:inserted-step-logs-component-WORKING[%s]" % tag, {"op": op, "component": c.ID, "index": i, "log": [int(s) for s in c.state_record_list]}))
                 for r in [w for tm in p.organization.team_list for w in tm.worker_list] + [f for wp in p.organization.workplace_list for f in wp.facility_list]:
                     if i < len(r.state_record_list) and int(r.state_record_list[i]) == S.R_WORKING:
                         out.append(("C18:inserted-step-logs-resource-WORKING[%s]" % tag, {"op": op, "resource": r.ID, "index": i}))
